@@ -124,3 +124,93 @@ func TestC06_Decisions(t *testing.T) {
 			c.Done(influence, dump+"|"+secret)
 		})
 }
+
+// TestC06_Presence: what is secret about the marked variable is whether it is set at all
+// (null or not), whether it is known, and - for the splat operator applied to something
+// that is not a list, set or tuple - whether the implicit tuple has an element.
+func TestC06_Presence(t *testing.T) {
+	hx.Run(t, "C06", "Presence", 12000,
+		"directed family: the secret `s` is a string / number / bool / object / map / list / tuple marked as a whole and used through a form where its presence or known-ness decides the result (`s[*]`, `s[*].id`, `s.*.name`, `s == null`, `s != null ? a : b`, len(s[*]), for over s[*], expansion of s[*] into call arguments, nullok(s), constructors around s), inside a second construct (tuple, object, len, comparison with [], for, parentheses, conditional branch, template); evaluated with two values of the type, null, a typed unknown, a not-null unknown and an unknown of unknown type; oracle (non-interference): any two error-free runs whose results differ after deep unmarking (known-ness included) must both carry the mark; non-trivial = a pair differs where one content is null or unknown; distinct by (source, type)",
+		func(c *hx.Case) {
+			t := c.T
+			type kind struct {
+				name string
+				a, b cty.Value
+			}
+			obj := func(id int64, name string) cty.Value {
+				return cty.ObjectVal(map[string]cty.Value{"id": cty.NumberIntVal(id), "name": cty.StringVal(name)})
+			}
+			kinds := []kind{
+				{"string", cty.StringVal("x"), cty.StringVal("y")},
+				{"number", cty.NumberIntVal(1), cty.NumberIntVal(2)},
+				{"bool", cty.True, cty.False},
+				{"object", obj(1, "x"), obj(2, "y")},
+				{"map", cty.MapVal(map[string]cty.Value{"id": cty.StringVal("1"), "name": cty.StringVal("x")}), cty.MapVal(map[string]cty.Value{"id": cty.StringVal("2")})},
+				{"list", cty.ListVal([]cty.Value{cty.StringVal("x")}), cty.ListVal([]cty.Value{cty.StringVal("x"), cty.StringVal("y")})},
+				{"tuple", cty.TupleVal([]cty.Value{obj(1, "x")}), cty.TupleVal([]cty.Value{obj(2, "y")})},
+				{"emptyobject", cty.EmptyObjectVal, cty.EmptyObjectVal},
+			}
+			k := rapid.SampledFrom(kinds).Draw(t, "kind")
+			bases := []string{"s[*]", "s.*", "s == null", "s != null", "s", "[s]", "{a = s}", "nullok(s)", "len(s[*])",
+				"s == null ? n1 : n2", "s != null ? [n1] : []", "[for x in s[*] : x]", "[for x in s[*] : n1]", "{for i, x in s[*] : \"k${i}\" => n1}",
+				"len(s[*]) > 0 ? \"set\" : \"unset\"", "nullok(s[*]...)", "[for x in [s] : x if x != null]", "s[*] == []", "len([for x in s[*] : x])"}
+			switch k.name {
+			case "object", "map", "tuple":
+				bases = append(bases, "s[*].id", "s.*.name", "s[*].id == [1]", "len(s[*].name)", "[for x in s[*].id : x]")
+			case "string":
+				bases = append(bases, "joinl(\",\", s[*])", "cat(s[*]...)", "\"${joinl(\"-\", s[*])}\"")
+			case "list":
+				bases = append(bases, "s[*][0]", "joinl(\",\", s)")
+			}
+			base := rapid.SampledFrom(bases).Draw(t, "base")
+			wraps := []string{"%s", "[%s]", "{k = %s}", "len(%s)", "(%s) == []", "[for v in %s : v]", "((%s))", "c1 ? %s : %s", "nullok(%s)", "[%s][0]", "{k = %s}.k", "[n1, %s]"}
+			wrap := rapid.SampledFrom(wraps).Draw(t, "wrap")
+			src := fmt.Sprintf(wrap, base)
+			if wrap == "c1 ? %s : %s" {
+				src = fmt.Sprintf(wrap, base, base)
+			}
+			c.Set("source", src)
+			c.Set("kind", k.name)
+			c.Class("kind_" + k.name)
+			expr, diags := parseExprSrc(src)
+			if diags.HasErrors() {
+				c.Failf("harness-generator", "directed source does not parse: %s", diagStr(diags))
+			}
+			ty := k.a.Type()
+			contents := []cty.Value{k.a, k.b, cty.NullVal(ty), cty.UnknownVal(ty), cty.UnknownVal(ty).RefineNotNull(), cty.DynamicVal}
+			names := []string{"a", "b", "null", "unknown", "unknown-notnull", "dynamic"}
+			type run struct {
+				v  cty.Value
+				ok bool
+			}
+			var runs []run
+			for _, content := range contents {
+				ctx := &hcl.EvalContext{Functions: ctyFuncs, Variables: map[string]cty.Value{
+					"s": content.Mark(secretMark), "n1": cty.NumberIntVal(7), "n2": cty.NumberIntVal(8), "c1": cty.True,
+				}}
+				var v cty.Value
+				var d hcl.Diagnostics
+				c.Guard("Value", func() { v, d = expr.Value(ctx) })
+				runs = append(runs, run{v, !d.HasErrors()})
+			}
+			influence := false
+			for i := 0; i < len(runs); i++ {
+				for j := i + 1; j < len(runs); j++ {
+					a, b := runs[i], runs[j]
+					if !a.ok || !b.ok || unmarkedDeep(a.v).RawEquals(unmarkedDeep(b.v)) {
+						continue
+					}
+					if i >= 2 || j >= 2 {
+						influence = true
+					}
+					if !carriesMark(a.v, secretMark) || !carriesMark(b.v, secretMark) {
+						c.Failf("mark-lost", "%s with the marked %s `s` = %s gives %#v, with `s` = %s gives %#v: the result depends on it but the mark is not carried by both results", src, k.name, names[i], a.v, names[j], b.v)
+					}
+				}
+			}
+			if influence {
+				c.Class("influence_of_presence")
+			}
+			c.Done(influence, src+"|"+k.name)
+		})
+}
